@@ -40,11 +40,37 @@ def did(d):
 
 
 def subsample(U, k, seed):
+    """Stratified sample: descriptors are grouped by their rare features (option profile,
+    constraint kinds, fault plan, start position, callback kind, scale) and groups are visited
+    round-robin, so that every profile of the universe is present in a quick run."""
     if k >= len(U):
         return list(U)
     rng = np.random.RandomState(seed % (2 ** 31))
-    idx = sorted(rng.choice(len(U), size=k, replace=False).tolist())
-    return [U[i] for i in idx]
+    if not (U and isinstance(U[0], dict) and "opt" in U[0]):
+        idx = sorted(rng.choice(len(U), size=k, replace=False).tolist())
+        return [U[i] for i in idx]
+    groups = {}
+    for i, d in enumerate(U):
+        key = (d["opt"], d["nl"], d["cb"][0], d["obj"], d["flt"][0], d["flt"][1], all(p == "fixed" for p in d["bp"]), "bad" in d["bp"])
+        groups.setdefault(key, []).append(i)
+    keys = sorted(groups)
+    for g in keys:
+        rng.shuffle(groups[g])
+    order = list(range(len(keys)))
+    rng.shuffle(order)
+    picked = []
+    while len(picked) < k:
+        progressed = False
+        for gi in order:
+            g = groups[keys[gi]]
+            if g:
+                picked.append(g.pop())
+                progressed = True
+                if len(picked) >= k:
+                    break
+        if not progressed:
+            break
+    return [U[i] for i in sorted(picked)]
 
 
 # ---------------------------------------------------------------- concrete pieces
@@ -63,6 +89,8 @@ def _bounds(bp):
             l, u = 0.25 + 0.125 * i, 0.5 + 0.125 * i
         elif p == "fixed":
             l = u = 0.75 - 0.25 * i
+        elif p == "ugly":         # limits that are not dyadic: the affine map of scaling rounds
+            l, u = 0.1 + 0.1 * i, 0.7 + 0.1 * i
         elif p == "bad":          # inconsistent
             l, u = 1.0, 0.5
         else:
@@ -89,6 +117,16 @@ def _x0(pos, lb, ub):
             x[i] = l - 1.5 if fl else mid - 1.5
         elif pos == "above":
             x[i] = u + 1.5 if fu else mid + 1.5
+        elif pos == "far":
+            x[i] = (0.5 if i == 0 else -4.0 + i)
+            if fl:
+                x[i] = max(x[i], l)
+            if fu:
+                x[i] = min(x[i], u)
+        elif pos == "mixed":
+            x[i] = (u if fu else mid) if i % 2 == 0 else (l if fl else mid)
+        elif pos == "mixed2":
+            x[i] = (u if fu else mid) if i == 0 else mid
     return x
 
 
@@ -109,6 +147,14 @@ def _objective(kind, n):
         def noisy(x):
             return float(np.sum(w * (x - 0.25 * t) ** 2) + 1e-3 * math.sin(1e3 * float(np.sum(x))))
         return noisy
+    if kind == "sum":
+        def total(x):
+            return float(np.sum(x))
+        return total
+    if kind == "cubic":
+        def cubic(x):
+            return float(x[0] ** 2 + np.sum(np.abs(x[1:]) ** 3))
+        return cubic
     if kind == "rosen":
         def rosen(x):
             if x.size == 1:
@@ -157,6 +203,15 @@ def _nonlinear(kind):
     if kind == "vector":
         return [("nlc", lambda x: np.array([_sq(x), float(x[0]) + 0.5 * math.sin(float(x[-1]))]),
                  np.array([-np.inf, -0.5]), np.array([1.5, 0.75]))]
+    if kind == "sin_eq":
+        return [("nlc", lambda x: float(x[-1]) - math.sin(3.0 * float(x[0])), 0.0, 0.0)]
+    if kind == "circle_eq":
+        return [("nlc", lambda x: _sq(x), 6.25, 6.25)]
+    if kind == "circle_ge":
+        return [("nlc", lambda x: _sq(x), 6.25, np.inf)]
+    if kind == "two_dicts":
+        return [("ineq", lambda x, r: r - _sq(x), 0.0, np.inf, (1.5,)),
+                ("ineq", lambda x, a, b: float(x[0]) + a - b * _sq(x), 0.0, np.inf, (0.5, 0.25))]
     if kind == "two_objs":
         return [("nlc", lambda x: _sq(x), -np.inf, 1.5),
                 ("ineq", lambda x: float(x[0]) + 0.5 - 0.25 * _sq(x), 0.0, np.inf)]
@@ -185,6 +240,22 @@ def _faulty(fun, kind, where, k, role, counter):
             return float(x[0])     # depends on one variable only: collinear data
         return degenerate
     val = _FAULT_VAL.get(kind, float("nan"))
+    if where in ("split", "split2"):
+        # objective undefined on one side of a hyperplane, constraints undefined on the other
+        thr = 0.1 if where == "split" else 0.6
+
+        @functools.wraps(fun)
+        def splitf(x, *a):
+            v = fun(x, *a)
+            side = float(x[0]) > thr
+            if (role == "obj" and side) or (role == "con" and not side):
+                if isinstance(v, np.ndarray):
+                    v = np.array(v, float)
+                    v[:] = val
+                    return v
+                return val
+            return v
+        return splitf
 
     @functools.wraps(fun)
     def wrapped(x, *a):
@@ -317,6 +388,20 @@ def _options(opt, nfree, sc, ref=None):
         o["maxiter"] = 5
     elif opt in ("target", "target2", "target3"):
         o["target"] = {"target": 6.0, "target2": 2.5, "target3": 0.75}[opt]
+    elif opt == "target_huge":
+        o["target"] = 1e300
+    elif opt == "tol0":
+        o["feasibility_tol"] = 0.0
+    elif opt == "tol0_target":
+        o["feasibility_tol"] = 0.0
+        o["target"] = 6.0
+    elif opt == "tol0_target2":
+        o["feasibility_tol"] = 0.0
+        o["target"] = 12.0
+    elif opt == "disp":
+        o["disp"] = True
+    elif opt == "npt_2np2":
+        o["nb_points"] = 2 * nfree + 2
     elif opt == "npt_min":
         o["nb_points"] = nfree + 1
     elif opt == "npt_max":
@@ -339,6 +424,41 @@ def _options(opt, nfree, sc, ref=None):
     return o
 
 
+def _place_trigger(d, fun, x0, bounds, cons, nfree):
+    """Reference run (no callback stop): read the site of every evaluation off its trace and
+    derive where to put the stopping request (C09: the trigger at every site)."""
+    from . import recorder
+    cbk = tuple(d["cb"])
+    optk = d["opt"]
+    ref_opt = {"budget_target": "target", "budget_target2": "target2"}.get(optk, "default")
+    o = _options(ref_opt, nfree, bool(d["sc"]))
+    o.pop("store_history", None)
+    cons_arg = cons
+    t = recorder.record_call(fun, x0, bounds=bounds, constraints=cons_arg, options=o, timeout=60.0)
+    sites = [e["site"] for e in t["ev"] if e["e"] == "EE" and e["completed"]]
+    vals = [(float(e["f"]), float(e["cv"])) for e in t["ev"] if e["e"] == "EE" and e["completed"]]
+    out = {}
+    want = {"stop_soc": "SOC", "stop_geo": "GEO", "stop_tr": "TR"}.get(cbk[0])
+    if want:
+        idx = [i + 1 for i, s in enumerate(sites) if s == want]
+        if idx:
+            out["stop_at"] = idx[min(cbk[1], len(idx) - 1)]
+    if cbk[0] == "stop_initlast":
+        idx = [i + 1 for i, s in enumerate(sites) if s == "INIT"]
+        if idx:
+            out["stop_at"] = idx[-1]
+    wt = {"target_soc": "SOC", "target_geo": "GEO", "target_tr": "TR"}.get(optk)
+    if wt:
+        tol = math.sqrt(np.finfo(float).eps)
+        idx = [i for i, s in enumerate(sites) if s == wt and vals[i][1] <= tol and math.isfinite(vals[i][0])]
+        if idx:
+            out["target"] = vals[idx[0]][0]
+    if optk in ("budget_target", "budget_target2"):
+        if t["exc"] is None and t["result"] is not None and int(t["result"].status) == 1:
+            out["maxfev"] = int(t["result"].nfev)
+    return out
+
+
 def build(d):
     """descriptor -> dict(fun, x0, bounds, constraints, callback, options, meta)"""
     from scipy.optimize import Bounds, NonlinearConstraint
@@ -353,10 +473,13 @@ def build(d):
     counter = {}
     fun = _faulty(_objective(d["obj"], n), fk, fw, fi, "obj", counter)
     cons = list(_linear(d["lin"], n))
-    for (ck, f, l, u) in _nonlinear(d["nl"]):
+    for spec in _nonlinear(d["nl"]):
+        ck, f, l, u = spec[:4]
         f = _faulty(f, fk, fw, fi, "con", counter)
         if ck == "nlc":
             cons.append(NonlinearConstraint(f, l, u))
+        elif len(spec) > 4:
+            cons.append({"type": ck, "fun": f, "args": spec[4]})
         else:
             cons.append({"type": ck, "fun": f})
     if d["bf"] == "Bounds":
@@ -366,8 +489,24 @@ def build(d):
     if all(p == "free" for p in bp) and d["bf"] == "Bounds" and d["x0"] == "inside" and n == 1:
         bounds = None
     state = {}
-    cb = _callback(tuple(d["cb"]), state)
-    opts = _options(d["opt"], nfree, bool(d["sc"]))
+    cbk = tuple(d["cb"])
+    optk = d["opt"]
+    derived = {}
+    if cbk[0] in ("stop_soc", "stop_geo", "stop_tr", "stop_initlast") or \
+            optk in ("target_soc", "target_geo", "target_tr", "budget_target", "budget_target2", "fev_eq_stop"):
+        derived = _place_trigger(d, fun, x0, bounds, cons, nfree)
+        if cbk[0].startswith("stop_") and cbk[0] != "stop_pos" and cbk[0] != "stop_overwrite":
+            cbk = ("stop", derived.get("stop_at", 3))
+        if optk == "fev_eq_stop":
+            derived["maxfev"] = cbk[1] if cbk[0] in ("stop", "stop_pos") and cbk[1] > 0 else 3
+    cb = _callback(cbk, state)
+    base_opt = {"target_soc": "default", "target_geo": "default", "target_tr": "default",
+                "budget_target": "target", "budget_target2": "target2", "fev_eq_stop": "default"}.get(optk, optk)
+    opts = _options(base_opt, nfree, bool(d["sc"]))
+    if "target" in derived:
+        opts["target"] = derived["target"]
+    if "maxfev" in derived:
+        opts["maxfev"] = derived["maxfev"]
     # scaling needs finite bounds; narrow boxes need a smaller initial radius is NOT set: the
     # solver must reduce it itself
     if len(cons) == 1 and d["lin"] != "none" and d["nl"] == "none":
